@@ -483,6 +483,15 @@ func (p *PendingFetch) take() bool {
 // size prefix, which still announces the full size) are written and the connection is closed.
 // Returns false when the fetch was already answered or its connection is gone.
 func (p *PendingFetch) RespondData(hwm int64, msgset []byte, declaredSize int, physCut int) bool {
+	if physCut < 0 {
+		return p.RespondDataFrameCut(hwm, msgset, declaredSize, -1)
+	}
+	return p.RespondDataFrameCut(hwm, msgset, declaredSize, 4+physCut)
+}
+
+// RespondDataFrameCut is RespondData with the cut counted from the start of the FRAME (the
+// 4-byte size prefix included): frameCut in [0,4) cuts inside the size prefix; frameCut < 0 = no cut.
+func (p *PendingFetch) RespondDataFrameCut(hwm int64, msgset []byte, declaredSize int, frameCut int) bool {
 	if !p.take() {
 		return false
 	}
@@ -495,11 +504,11 @@ func (p *PendingFetch) RespondData(hwm int64, msgset []byte, declaredSize int, p
 	binary.BigEndian.PutUint32(frame, uint32(len(body)))
 	copy(frame[4:], body)
 	it := wItem{data: frame}
-	if physCut >= 0 {
-		if physCut > len(body) {
-			physCut = len(body)
+	if frameCut >= 0 {
+		if frameCut > len(frame) {
+			frameCut = len(frame)
 		}
-		it = wItem{data: frame[:4+physCut], close: true}
+		it = wItem{data: frame[:frameCut], close: true}
 		f.mu.Lock()
 		sc.closed = true
 		f.record(sc, Event{Kind: EvServerClosed})
